@@ -28,7 +28,24 @@ pub(crate) fn auto_adjust_expr(expr: Expr, ty: Option<&Type>) -> Expr {
     // a literal or a type that comes out of a `macro_rules` fragment is wrapped in an invisible group
     let ty = ty.map(ungroup_type);
 
-    match ungroup(&expr) {
+    // `-1` is a literal too; depending on what follows it in the attribute it arrives as one negative literal or as a
+    // negation applied to a literal
+    let literal = match ungroup(&expr) {
+        Expr::Unary(syn::ExprUnary {
+            op: syn::UnOp::Neg(_),
+            expr: inner,
+            ..
+        }) => match ungroup(inner) {
+            inner @ Expr::Lit(syn::ExprLit {
+                lit: Lit::Int(_) | Lit::Float(_),
+                ..
+            }) => inner,
+            _ => return expr,
+        },
+        other => other,
+    };
+
+    match literal {
         Expr::Lit(lit) => {
             match &lit.lit {
                 Lit::Int(lit) => {
